@@ -18,4 +18,6 @@ VARIANTS = [
     # benign
     V('benign-statics-temp', R, ("self._last_tau = self.jacobian(*args, **kwargs).T @ eef_wrench\n        return self._last_tau.copy()", "jt = self.jacobian(*args, **kwargs).T\n        self._last_tau = jt @ eef_wrench\n        return self._last_tau.copy()"), 'silent'),
     V('benign-linkmass-inline', A, ("link_mass = self._link_masses[i]\n            applied_pos_global = joint_poses[i] @ link_mass_cg\n            carry_wrench = carry_wrench + fsr.makeWrench(applied_pos_global, link_mass, self.grav)", "applied_pos_global = joint_poses[i] @ link_mass_cg\n            carry_wrench = carry_wrench + fsr.makeWrench(applied_pos_global, self._link_masses[i], self.grav)"), 'silent'),
+    V('inverse-statics-truncated-pinv', R, ("return Wrench(np.linalg.pinv(self.jacobian(*args, **kwargs).T) @ forces)", "return Wrench(np.linalg.pinv(self.jacobian(*args, **kwargs).T, rcond=1e-5) @ forces)"), 'fire', 'without truncation'),
+    V('benign-inverse-statics-default-rcond', R, ("return Wrench(np.linalg.pinv(self.jacobian(*args, **kwargs).T) @ forces)", "return Wrench(np.linalg.pinv(self.jacobian(*args, **kwargs).T, rcond=1e-15) @ forces)"), 'silent'),
 ]
